@@ -28,7 +28,7 @@ What I want:
 3. The existing test suite must not notice: every test that passed before must still pass. Run it with
      cd {wt} && PYTHONPATH={wt}/src /venv/bin/python -m pytest -q -p no:cacheprovider --timeout=900 -n 6 tests 2>&1 | tail -15
    On the UNCHANGED tree exactly 20 tests fail (15 in tests/compute/sympy/lorentz/*, 5 in tests/test_notebooks.py) and 795 pass; with your change the set of failing tests must be the same 20 and 795 must pass. (Run the suite once BEFORE editing, saving the failing-test list, if you want to diff.)
-4. A demonstration {wt}/demo.py: a small standalone program using only the public API of `vector` (plus numpy/awkward/numba/sympy as needed) that checks the property on the triggering input with asserts; it must exit 0 on the unchanged library and exit non-zero (AssertionError) with your change. Verify BOTH: run it with your change, then `git -C {wt} stash` (or `git diff > /tmp/p.diff; git apply -R`), run it again, then restore your change.
+4. A demonstration {wt}/demo.py: a small standalone program using only the public API of `vector` (plus numpy/awkward/numba/sympy as needed) that checks the property on the triggering input with asserts; it must exit 0 on the unchanged library and exit non-zero (AssertionError) with your change. Verify BOTH: run it with your change, then `git -C {wt} diff -- src > {wt}/p.diff; git -C {wt} apply -R {wt}/p.diff`, run it again, then restore your change with `git -C {wt} apply {wt}/p.diff`. NEVER use `git stash`: the stash is shared by all worktrees of the repository and other people work in sibling worktrees.
 5. {wt}/meta.json with the keys: "property" ("{pid}"), "summary" (what was changed, where), "needs" (exactly what is required for the defect to manifest, and what ordinary uses are unaffected), "files" (list of changed files, relative), "tests_result" (the last line of pytest's output with your change).
 6. Leave your change APPLIED (uncommitted) in the worktree, with demo.py and meta.json next to it, and finish with a short report: the diff, what the demo prints with and without the change, and the pytest summary line.
 
